@@ -20,6 +20,7 @@ THEOREMS = {
         "MG.C14.seed_shape",
         "MG.C14.bad_seed_rejected_no_write",
         "MG.C14.stored_grads_have_tensor_shape",
+        "MG.C14.seeded_graphless_terminal",
     ]
 }
 
